@@ -92,7 +92,7 @@ func judgeC08(rep *lib.Report, c *lib.Ctx, ln *printerLine, res *realResult, kas
 		expRed = bytes.ReplaceAll(expRed, []byte(p), []byte(redact.RedactableBytes(content).Redact()))
 		expStrip = bytes.ReplaceAll(expStrip, []byte(p), redact.RedactableBytes(content).StripMarkers())
 	}
-	if rnd && !bytes.Equal(res.Out, exp) && chunksEqual(lib.NormOf(res.Out), lib.NormOf(exp)) {
+	if !bytes.Equal(res.Out, exp) && len(ln.C.Ts) > 1 && chunksEqual(lib.NormOf(res.Out), lib.NormOf(exp)) {
 		// an unsafe operand printed right after a redactable that ends in an envelope continues that envelope (the
 		// buffer elides the marker pair in between): the same chunks, merged
 		return
